@@ -156,6 +156,9 @@ def gen(t, tier):
     sc['restore'] = [[t.choice(max(1, len(sc['tiles']))), t.pick([1.0, 5, 3600, 86400, 14 * 86400]), bool(t.chance(0.6))]
                      for _ in range(t.pick([0, 0, 1, 2, 3]))] if has_ts else []
     sc['old_dirs'] = b['type'] == 'file' and bool(t.chance(0.2))
+    # SQLite caches in write-ahead-log mode, with the server process keeping its connections open while the tiles are stored:
+    # commits go to the -wal file, the main database file (and its time stamp) is not touched until a checkpoint
+    sc['wal'] = b['type'] in ('sqlite', 'mbtiles') and bool(t.chance(0.4))
     # the cache has a coverage of its own (it was narrowed to a region after the tiles were stored): what the cleanup task
     # selects is still what has to go
     sc['cache_coverage'] = [t.choice(5) / 8.0, t.choice(5) / 8.0, t.randint(4, 8) / 8.0, t.randint(4, 8) / 8.0] \
@@ -189,7 +192,7 @@ def shrink(sc):
                 yield c
         size //= 2
     for key, simple in (('coverage', None), ('cov_srs', '3857'), ('meta_size', [1, 1]), ('salt', None), ('after', 0.0),
-                        ('cache_refresh', None), ('cache_coverage', None), ('pre_task', None), ('old_dirs', False), ('slow_remove', None), ('vanish', None)):
+                        ('cache_refresh', None), ('cache_coverage', None), ('wal', False), ('pre_task', None), ('old_dirs', False), ('slow_remove', None), ('vanish', None)):
         if sc.get(key, simple) != simple:
             c = copy.deepcopy(sc)
             c[key] = simple
@@ -279,6 +282,8 @@ def _run(sc, tape):
         cache_conf['directory'] = realdir + '/sq'
     elif b['type'] == 'mbtiles':
         cache_conf['filename'] = realdir + '/c.mbtiles'
+    if sc.get('wal'):
+        cache_conf['sqlite_wal'] = True
     elif b['type'] == 'geopackage':
         if b.get('levels'):
             cache_conf['directory'] = realdir + '/gp'
@@ -377,12 +382,38 @@ def _run(sc, tape):
             c = (fx * nx // 1000, fy * ny // 1000, z)
             if c not in [t_[0] for t_ in tiles]:
                 tiles.append((c, dt, item[2] if len(item) > 2 else None))
+        stamped = {}
+        lingering = {}
+
+        def settle():
+            # database files live on a real tmpfs: what the real clock wrote as their time stamps is replaced by the simulated
+            # time of the write; in WAL mode another process keeps a connection to every database file open
+            if realdir is None:
+                return
+            import sqlite3
+            for root, dirs, files in sorted(os.walk(realdir)):
+                for fn in sorted(files):
+                    pth = os.path.join(root, fn)
+                    try:
+                        ns = os.stat(pth).st_mtime_ns
+                    except OSError:
+                        continue
+                    if stamped.get(pth) != ns:
+                        os.utime(pth, (clock.now, clock.now))
+                        stamped[pth] = os.stat(pth).st_mtime_ns
+                    if sc.get('wal') and fn.endswith(('.mbtile', '.mbtiles')) and pth not in lingering:
+                        con = sqlite3.connect(pth)
+                        con.execute('SELECT count(*) FROM tiles').fetchall()
+                        lingering[pth] = con
+                        probes['wal_connections_kept_open'] = probes.get('wal_connections_kept_open', 0) + 1
+        result['lingering'] = lingering
         for i, (coord, dt, colour) in enumerate(tiles):
             clock.now += dt
             t = C.make_tile(coord, C.payload({'color': colour} if colour else {'tok': 5000 + i, 'size': 0},
                                              w=U.TS, h=U.TS))
             cache.store_tile(t)
             times_of[tuple(coord)] = clock.now
+            settle()
         for (ti, dt, same) in sc.get('restore') or []:
             i = min(ti, len(tiles) - 1)
             coord, _dt, colour = tiles[i]
@@ -393,6 +424,7 @@ def _run(sc, tape):
                 spec = {'tok': 7000 + i, 'size': 0}
             cache.store_tile(C.make_tile(coord, C.payload(spec, w=U.TS, h=U.TS)))
             times_of[tuple(coord)] = clock.now
+            settle()
             probes['tiles_stored_again'] = probes.get('tiles_stored_again', 0) + 1
         # foreign objects
         foreign_tile = (1, 1, 1)
@@ -641,6 +673,11 @@ def _run(sc, tape):
     finally:
         for fn_ in restore:
             fn_()
+        for con_ in (result.get('lingering') or {}).values():
+            try:
+                con_.close()
+            except Exception:
+                pass
         if realdir is not None:
             shutil.rmtree(realdir, ignore_errors=True)
     probes['tiles_required_removed'] = result.get('removed', 0)
